@@ -216,6 +216,50 @@ def check(tier: str) -> Result:
     # ------------------------------------------------------------------ R3 (= C01.R6)
     from .common import borrow as _borrow
     _borrow(res, "c01", {"C01.R6": "C10.R3"})
+    # ---- R7: GraphColoring: the adjacency matrix is symmetric without self-loops BY CONSTRUCTION: A = L (+ or |) L.T with
+    # L a strict triangle (tril(.., k=-1) / triu(.., k=1)) -- decided on the value-flow form of the generated State
+    gci = tree.classes.get("jumanji.environments.logic.graph_coloring.generator.RandomGenerator")
+    if gci is None:
+        raise AnalysisError("anchor graph_coloring.generator.RandomGenerator not found")
+    gcall = tree.find_method(gci, "__call__")
+    from ..engine import VFG as _VFG
+    from ..model import Model as _Model
+    from ..terms import mk as _mk, uncopy as _unc
+    from ..normal import ext_name as _ext
+    vg = _VFG(tree, _Model(tree))
+    gk = _mk("param", gcall.qual, gcall.params[1])
+    gr = _unc(vg.apply_func(gcall, _mk("self", gci.qual), gci, [gk], {}, None, None))
+    A = _unc(strip_cast(vg.mk_attr(gr, "adj_matrix"))) if gr.kind in ("construct", "update") else gr
+    verdict, why = None, f"adjacency built as {txt(A, 4, 120)} (form not compared)"
+    parts = None
+    if A.kind == "bin" and A.args[0] in ("+", "|"):
+        parts = (_unc(strip_cast(A.args[1])), _unc(strip_cast(A.args[2])))
+    elif _ext(A) in ("jax.numpy.logical_or", "jax.numpy.maximum", "jax.numpy.add") and len(A.args[1]) == 2:
+        parts = (_unc(strip_cast(A.args[1][0])), _unc(strip_cast(A.args[1][1])))
+    if parts is not None:
+        L = None
+        for x, y in (parts, parts[::-1]):
+            if (y.kind == "attr" and y.args[1] == "T" and _unc(strip_cast(y.args[0])) is x) or (_ext(y) in ("jax.numpy.transpose",) and y.args[1] and _unc(strip_cast(y.args[1][0])) is x):
+                L = x
+        if L is None:
+            verdict, why = False, f"{txt(A, 4, 120)} is not `L combined with L.T` for one and the same L: the adjacency matrix is not symmetric by construction"
+        else:
+            kw = dict(L.args[2]) if L.kind == "call" else {}
+            kk = kw.get("k", L.args[1][1] if L.kind == "call" and len(L.args[1]) > 1 else None)
+            kv = None
+            if kk is not None:
+                k0 = strip_cast(kk)
+                kv = k0.args[0] if k0.kind == "const" else (-k0.args[1].args[0] if k0.kind == "un" and k0.args[0] == "-" and k0.args[1].kind == "const" else None)
+            strict = (_ext(L) == "jax.numpy.tril" and kv is not None and kv <= -1) or (_ext(L) == "jax.numpy.triu" and kv is not None and kv >= 1)
+            if strict:
+                verdict, why = True, f"L = {txt(L, 3, 60)} is a strict triangle; A = L combined with L.T"
+            elif _ext(L) in ("jax.numpy.tril", "jax.numpy.triu"):
+                verdict, why = False, f"L = {txt(L, 3, 60)} keeps the diagonal (k = {kv}): self-loops are generated"
+            else:
+                verdict, why = False, f"L = {txt(L, 3, 60)} is not a strict triangle (tril(.., k=-1) / triu(.., k=1)): the diagonal can be set, a node would be adjacent to itself"
+    if parts is None and _ext(A) in ("jax.numpy.tril", "jax.numpy.triu"):
+        verdict, why = False, f"the adjacency matrix is the single triangle {txt(A, 3, 60)}: edges exist in one direction only (not symmetric)"
+    res.add("C10.R7", gcall.loc(), "logic.graph_coloring.generator.RandomGenerator.__call__", "the adjacency matrix is symmetric without self-loops by construction", verdict, why)
     # ---- R6: reset-side spawn helpers receive the value reset stores in the state, not an earlier version of it
     # (e.g. the first fruit sampled against the board before the snake's head is placed): borrowed from C07.R3
     from .common import borrow
